@@ -1,5 +1,6 @@
 """Kani route: loop-free harnesses on the REAL crate (scratch copy + appended #[cfg(kani)] module)."""
 import fcntl
+import resource
 import hashlib
 import os
 import re
@@ -46,6 +47,21 @@ def _harness_bodies(text):
     return res
 
 
+def expand_extracts(harness, repo):
+    """`//@@EXTRACT <file> :: <seg> :: <seg> ...` lines are replaced by the verbatim text of that fn item of /repo's
+    working tree (used for nested fns, which a harness cannot name): mechanical extraction on every run."""
+    from . import rustsrc
+    def repl(m):
+        parts = [x.strip() for x in m.group(1).split(" :: ")]
+        src = open(os.path.join(repo, parts[0])).read()
+        try:
+            it = rustsrc.find_fn(src, parts[1:])
+        except rustsrc.ScanError as e:
+            raise core.Undecided("kani harness: anchor lost: %s" % e)
+        return "    // ---- verbatim copy of %s lines %d-%d ----\n    %s\n    // ---- end of verbatim copy ----" % (m.group(1), it.line, it.end_line, it.text)
+    return re.sub(r"^[ \t]*//@@EXTRACT (.+)$", repl, harness, flags=re.M)
+
+
 def prepare_crate(repo, verif, unit):
     lock = open(os.path.join(repo, "Cargo.lock"), "rb").read()
     key = hashlib.sha256(lock).hexdigest()[:12]
@@ -65,6 +81,7 @@ def prepare_crate(repo, verif, unit):
     os.makedirs(os.path.join(d, ".cargo"), exist_ok=True)
     open(os.path.join(d, ".cargo", "config.toml"), "w").write("[net]\noffline = true\n")
     harness = open(os.path.join(verif, unit.harness_file)).read()
+    harness = expand_extracts(harness, repo)
     target = os.path.join(d, unit.append_to)
     orig = open(target).read()
     open(target, "w").write(orig + harness)
@@ -88,7 +105,7 @@ def run_kani_unit(unit, workdir, tier, seed):
         for h in unit.harnesses:
             cmd += ["--harness", h]
         try:
-            p = subprocess.run(cmd, cwd=d, env=env, capture_output=True, text=True, timeout=unit.timeout + 120)
+            p = subprocess.run(cmd, cwd=d, env=env, capture_output=True, text=True, timeout=unit.timeout + 120, preexec_fn=_limit_memory)
             out = p.stdout + "\n" + p.stderr
         except subprocess.TimeoutExpired:
             _kill_cbmc()
@@ -164,10 +181,18 @@ def run_kani_unit(unit, workdir, tier, seed):
             pass
 
 
+def _limit_memory():
+    # a runaway CBMC (e.g. an unbounded recursion in a harness) must not take the machine down: 24 GB address space
+    try:
+        resource.setrlimit(resource.RLIMIT_AS, (24 << 30, 24 << 30))
+    except Exception:
+        pass
+
+
 def _rerun_single(unit, d, env, h):
     cmd = ["cargo", "kani", "-Z", "stubbing", "-Z", "function-contracts", "-Z", "concrete-playback", "--concrete-playback=print", "--harness", h]
     try:
-        p = subprocess.run(cmd, cwd=d, env=env, capture_output=True, text=True, timeout=unit.timeout)
+        p = subprocess.run(cmd, cwd=d, env=env, capture_output=True, text=True, timeout=unit.timeout, preexec_fn=_limit_memory)
         return p.stdout + "\n" + p.stderr
     except subprocess.TimeoutExpired:
         _kill_cbmc()
